@@ -485,10 +485,17 @@ class PrintNode(visitor.Visitor):
         return ".."
 
     def visit_BinaryOp(self, node):
-        return self.visit(node.left) + node.op + self.visit(node.right)
+        right = self.visit(node.right)
+        if node.right.__class__.__name__ == "UnaryOp":
+            # 1 - -1 must not become 1--1
+            right = "(" + right + ")"
+        return self.visit(node.left) + node.op + right
 
     def visit_UnaryOp(self, node):
-        return node.op + self.visit(node.node)
+        operand = self.visit(node.node)
+        if node.node.__class__.__name__ == "UnaryOp":
+            operand = "(" + operand + ")"
+        return node.op + operand
 
     def visit_ParenExpr(self, node):
         return "(" + self.visit(node.node) + ")"
